@@ -12,20 +12,22 @@ VARIABLES rep, init, history, tree
 vars == <<rep, init, history, tree>>
 
 Init == /\ rep \in [Cwds -> Stale] /\ init = rep /\ history = <<>> /\ tree = "T"
-        \* only the stale state of "in" and "parent" varies freely; the others start absent or junk
-        /\ rep["sub"] \in {"absent", "sol"} /\ rep["other"] \in {"absent", "junk"}
+        \* only the stale state of "in" and "parent" varies freely; the others start absent or with one kind of content
+        /\ rep["sub"] \in {"absent", "sol"} /\ rep["other"] \in {"absent", "long"}
 
-Run(c) == /\ Len(history) < MaxRuns
+Run(c, mode) ==
+          /\ Len(history) < MaxRuns
           /\ rep' = IF AppendMode /\ rep[c] # "absent" THEN [rep EXCEPT ![c] = "junk"]
                     ELSE IF ReadsStale /\ c = "in" /\ rep[c] = "sol" THEN [rep EXCEPT ![c] = "junk"]
-                    ELSE RunEffect(rep, c)
-          /\ history' = Append(history, c)
+                    ELSE RunEffect(rep, c, mode)
+          /\ history' = Append(history, <<c, mode>>)
           /\ UNCHANGED <<init, tree>>
-Next == \E c \in Cwds : Run(c)
+Next == \E c \in Cwds, mode \in Modes : Run(c, mode)
 Spec == Init /\ [][Next]_vars
 
-Visited == {history[i] : i \in 1 .. Len(history)}
+Visited == {history[i][1] : i \in 1 .. Len(history)}
+LastMode(c) == history[CHOOSE i \in 1 .. Len(history) : history[i][1] = c /\ \A j \in (i + 1) .. Len(history) : history[j][1] # c][2]
 OnlyReport == tree = "T" /\ \A c \in Cwds \ Visited : rep[c] = init[c]
-Overwrite  == \A c \in Visited : rep[c] = "R"
+Overwrite  == \A c \in Visited : rep[c] = ReportOf(LastMode(c))
 DumpBehaviour == (Len(history) = MaxRuns) => PrintT(<<"REPLAY", ToJson([init |-> init, history |-> history])>>)
 =============================================================================
